@@ -72,6 +72,8 @@ type Exec struct {
 	usedGhost   map[string]bool
 	ginv        *GInv
 	npathsDone  int
+	epochPrev   map[int]int
+	epochKeep   map[int][]string
 }
 
 func NewExec(w *World) *Exec {
@@ -82,6 +84,7 @@ func NewExec(w *World) *Exec {
 		heapSorts: map[string]string{}, ghostVars: map[string]*GhostVar{}, ghostFuns: map[string]*GhostFun{},
 		events: map[string]*EventDecl{}, externals: map[string]bool{}, inlined: map[string]bool{},
 		usedContracts: map[string]bool{}, maxPaths: 4000,
+		epochPrev: map[int]int{}, epochKeep: map[int][]string{},
 	}
 	d := x.decls
 	d.Sort("Ref")
@@ -182,6 +185,8 @@ func (x *Exec) gomod(a, m Term) Term { return App("gomod", "Int", a, m) }
 func (x *Exec) boundMethodTerm(recv Term, method string) Term {
 	fn := "bound$" + method
 	x.decls.Fun(fn, []string{recv.Sort}, "Ref")
+	// a method value is never nil
+	x.decls.Axiom("bound.nonnull."+fn+"."+recv.Sort, fmt.Sprintf("(forall ((r %s)) (! (not (= (%s r) null)) :pattern ((%s r))))", recv.Sort, fn, fn))
 	return App(fn, "Ref", recv)
 }
 
